@@ -1,10 +1,43 @@
 (* C08 — The two optimisation switches never change any result.  Only statements.
    (Matcher half: the prefix index; the static-value half is decided on every run by comparing the four switch
    combinations of the implementation with each other and with the static-optimisation-free model.) *)
-From Coq Require Import NArith ZArith List Bool.
-From CA Require Import Gen.Generated Model.Lexer Model.Parser Model.Matcher.
+From Coq Require Import NArith ZArith List Bool Permutation.
+From CA Require Import Gen.Generated Model.Lexer Model.Parser Model.Matcher
+  Proofs.MatcherP Proofs.MatcherPermP Proofs.MatcherKeysP.
 Import ListNotations.
 
 (* the prefix length used by the model is the one in src/asm/defs/ruledef_map.rs *)
 Theorem C08_prefix_size : Generated.MAX_PREFIX_SIZE = Z.of_nat MAX_PREFIX.
 Proof. vm_compute. reflexivity. Qed.
+
+(* the prefix index never loses a candidate: every rule (of any parsed rule set) that can match the instruction
+   is among the rules the index returns for the instruction's key *)
+Theorem C08_prefix_complete : forall t defs i j d r w,
+  parse_defs t = Some defs ->
+  nth_error defs i = Some d -> rd_sub d = false -> nth_error (rd_rules d) j = Some r ->
+  match_with_rule (match_fuel defs (tail w)) defs r (rpat r) w true {| sf_rd := i; sf_ru := j; sf_args := [] |} <> [] ->
+  In (i, j) (query_prefixed (map_entries defs) (instr_key MAX_PREFIX w)).
+Proof. exact C08_prefix_complete_parsed. Qed.
+
+(* ... and returns only real, non-sub rules, each at most once *)
+Theorem C08_index_sound : forall defs key i j,
+  In (i, j) (query_prefixed (map_entries defs) key) ->
+  exists d r, nth_error defs i = Some d /\ rd_sub d = false /\ nth_error (rd_rules d) j = Some r.
+Proof. exact MatcherP.C08_index_sound. Qed.
+Theorem C08_index_nodup : forall defs key, NoDup (query_prefixed (map_entries defs) key).
+Proof. exact MatcherP.C08_index_nodup. Qed.
+
+(* hence, at equal fuel, the candidate matches found through the index are a permutation of those found by trying
+   every rule; match_instr in either mode is finish_matches (de-duplication + literal-count filter) of these lists *)
+Theorem C08_working_permutation : forall t defs fuel w,
+  parse_defs t = Some defs ->
+  Permutation (working_indexed fuel defs w) (working_brute fuel defs w).
+Proof. exact C08_working_permutation_parsed. Qed.
+Theorem C08_modes_are_finish_of_working : forall defs w,
+  match_instr_at true defs w = finish_matches defs (working_indexed (match_fuel defs (tail w)) defs w) /\
+  match_instr_at false defs w = finish_matches defs (working_brute (Nat.pred (match_fuel defs (tail w))) defs w).
+Proof. intros defs w. split; [apply match_instr_at_indexed | apply match_instr_at_brute]. Qed.
+(* at the actual fuels (they differ by one) nothing found by brute force is missing from the indexed candidates *)
+Theorem C08_index_loses_nothing : forall t defs w, parse_defs t = Some defs ->
+  incl (working_brute (Nat.pred (match_fuel defs (tail w))) defs w) (working_indexed (match_fuel defs (tail w)) defs w).
+Proof. intros t defs w H. apply MatcherPermP.C08_index_loses_nothing. eapply parse_defs_keys_ok; eauto. Qed.
